@@ -374,7 +374,7 @@ def explore(tier, seed, jobs):
         'states': stats['states'], 'transitions': stats['transitions'],
         'traces_validated_against_impl': stats['replays'],
         'samples': stats['samples'] or [{'note': 'no successor states'}],
-        'exhaustive': True, 'depth_bound': st['depth'], 'last_level_inplace_only': st['last_inplace_only'] is True, 'last_level_reduction': 'in-place operations on targets whose buffers are shared' if st['last_inplace_only'] is True else 'operand tuples that touch an object created or modified by the previous call (or sharing a buffer with one); other tuples were executed identically from the parent state', 'routine_calls_that_raised_and_were_disabled': stats['raised'], 'inplace_deviation_bound': st['bound_inplace'],
+        'exhaustive': True, 'depth_bound': st['depth'], 'last_level_inplace_only': st['last_inplace_only'] is True, 'reduction_all_levels': 'operand tuples must touch an object created or modified by the previous call (or one sharing a buffer with it); other tuples were executed identically from the parent state', 'last_level_reduction': 'additionally: only in-place operations on targets whose buffers are shared' if st['last_inplace_only'] is True else 'none beyond the all-level reduction', 'operand_tuples': 'with repetition (the same object in two argument positions)', 'routine_calls_that_raised_and_were_disabled': stats['raised'], 'inplace_deviation_bound': st['bound_inplace'],
         'alphabet_size': len(m.ops), 'alphabet': [o.name for o in m.ops], 'pools': list(m.pools),
         'per_pool': stats['per_pool'], 'per_depth': stats['per_depth'],
         'distinct_sharing_partitions': stats['distinct_sharing_partitions'],
